@@ -352,3 +352,28 @@ def sharing_violations(got, exp, old_ids, path=()):
     for i, (g, e) in enumerate(zip(got, exp)):
       out += sharing_violations(g, e, old_ids, path + (I(i),))
   return out
+
+
+def alias_violations(got, exp, old_ids, path=()):
+  """Paths where `exp` holds a fresh object but `got` holds an old one.
+
+  `exp` comes from `set_`: an object of `exp` whose id is *not* in `old_ids`
+  lies on an update path (or was made by the user's function).  If the
+  implementation has one of the caller's own mutable objects there, the update
+  was written into the caller's data, or a later write to the output would be.
+  Untouched sub-trees (id in `old_ids`) are shared on purpose and not entered.
+  """
+  if id(exp) in old_ids:
+    return []
+  out = []
+  if (is_container(exp) or isinstance(exp, np.ndarray)) and isinstance(
+      got, (dict, list, np.ndarray)) and id(got) in old_ids:
+    out.append(path)
+  if isinstance(exp, dict) and isinstance(got, dict):
+    for k, v in exp.items():
+      if k in got:
+        out += alias_violations(got[k], v, old_ids, path + (k,))
+  elif is_seq(exp) and is_seq(got) and len(exp) == len(got):
+    for i, (g, e) in enumerate(zip(got, exp)):
+      out += alias_violations(g, e, old_ids, path + (I(i),))
+  return out
